@@ -295,7 +295,7 @@ def run_case(case):
                     dev = float(np.max(np.abs(va - vb) / (np.abs(vb) + 1e-9 * (1 + np.max(np.abs(vb))))))
                     tol_v = 1e-8 if name == "mean" else 1e-6
                     if dev > tol_v:
-                        tol_v = tol_v + 20.0 * sens_of(name, j)
+                        tol_v = tol_v + util.COND_FACTOR * sens_of(name, j)
                     note("vmap_vs_loop_" + name, dev, tol=tol_v)
             if not np.array_equal(np.asarray(batched[2][b]), np.asarray(one[2])):
                 viols.append(util.viol("vmap_vs_loop_steps", f"batch member {b}: step counts {np.asarray(batched[2][b]).tolist()} vs {np.asarray(one[2]).tolist()}", tags=tags))
